@@ -110,7 +110,7 @@ TOK_RULES = [
  ("WordFeatures::get", r"index", "word ids come from the trie postings, which list indices of the entries the features were built from (same Vec order in Lexicon::from_entries)", None),
  ("Postings::ids", r".*", "offsets stored in the trie are the offsets PostingsBuilder::push returned; data[i] is the length it wrote in front of the ids, so i+1+len <= data.len()", None),
  ("CharInfo::length", r"cast", "the field occupies the top bits: only 32-28 = 4... bits remain after the shift", None),
- ("char_info::{closure", r"index\(arg1\.#0\.chr2inf,0\)", "chr2inf has 0x10000 elements (CharProperty::from_reader resizes it before filling)", None),
+ ("char_info::{closure", r"index\(arg1(\.#0)?\.chr2inf,0\)", "chr2inf has 0x10000 elements (CharProperty::from_reader resizes it before filling)", None),
  # ---- unknown words
  ("gen_unk_words", r"assert_failed", "debug_assert_ne!(groupable, 0): compute_groupable fills 1 and only increments", None),
  ("gen_unk_words", r"Sub\(groupable", "groupable >= 1 (filled with 1, only incremented)", None),
